@@ -29,6 +29,8 @@ CONSTANTS
   Catalogue <- MCCatalogue
   Export = FALSE
 INVARIANT RejectsNSC
+INVARIANT FinishTotal
+INVARIANT GridExact
 INVARIANT SurfaceCount
 INVARIANT RadiusLaw
 INVARIANT VertexLaw
